@@ -132,6 +132,20 @@ func genFramePlan(seed uint64, thorough bool) *Plan {
 				a = []string{"GETRANGE", g.key(), "0", "-1"}
 			case 14:
 				a = []string{"PING", g.nasty()}
+				switch g.r.IntN(6) {
+				case 0:
+					// a request with more elements than any fixed-size table would hold
+					n := []int{200, 1023, 1024, 1025, 1100, 1500}[g.r.IntN(6)]
+					a = []string{g.pick("RPUSH", "SADD", "DEL", "LPUSH"), g.key()}
+					for j := 0; j < n; j++ {
+						a = append(a, "e"+strconv.Itoa(j))
+					}
+				case 1:
+					// the empty value, duplicated and read through the copy
+					a = []string{"COPY", g.key(), g.key(), "REPLACE"}
+				case 2:
+					a = []string{"SET", g.key(), ""}
+				}
 			default:
 				switch g.r.IntN(4) {
 				case 0:
